@@ -96,6 +96,7 @@ def jobs(tier, seed):
         "rule-outline": [F([R([O(1, [(2, [])], tags=["p<x>"])])])],
         "outline-untagged": [F([O(1, [(1, []), (1, [])], noptags=True)])],
         "stepless": [F([S(0), S(1), R([S(0)])])],       # scenarios without any step (own or background)
+        "undef-steps": [F([S(2), S(1)])],            # steps may lack a definition (also in de-selected scenarios, also in dry-run)
         "same-names": [F([S(1, name="Pay the order"), S(1, name="Pay the order"), R([S(1, name="Pay the order")])])],
     }
     if tier == "thorough":
@@ -111,13 +112,13 @@ def jobs(tier, seed):
         for i, ex in enumerate(exprs):
             text, tree, proto = ex[:3]
             names = ex[3] if len(ex) > 3 else ["a", "b", "ab"]
-            if sname in ("outline-untagged", "stepless", "same-names") and tier == "quick" and i not in (0, 1, 3, 6, 11, 13):
+            if sname in ("outline-untagged", "stepless", "same-names", "undef-steps") and tier == "quick" and i not in (0, 1, 3, 6, 11, 13):
                 continue
             if sname in ("2rules", "2feat", "outline2") and i in (5, 15, 24, 27):
                 continue        # three-tag expressions on the larger shapes exceed the 600 s job budget (stated bound)
             js.append(Job("sel.%s.e%02d" % (sname, i), "props.c09:h_select",
                           {"shapes": sh, "opts": {"ptags": names, "tag_universe": names,
                                                   "tag_expr": {"text": text, "tree": tree, "protocol": proto},
-                                                  "dry_run": "sym", "out_dom": {"*": dom}, "undef": False}},
+                                                  "dry_run": "sym", "out_dom": {"*": dom}, "undef": sname == "undef-steps"}},
                           reach=REACH[:2], min_paths=4, cost=100, validate=25 if tier == "quick" else 200, closure=False))
     return js
